@@ -11,9 +11,9 @@ from depsim import env, gen, refparser, session
 from depsim.props.base import ParserSessionProp
 from depsim.runner import Violation, add_set, bump, digest, new_stats
 
-EN_WORDS = ['a)b', ':)-', '1)a', 'a_b', '_', 'x[1]', '42', '3.14', 'dog', 'Mr.', "it's", '(', '[', ']', '{', 'a(b', '<x>', 'x>y', '&amp;', 'ü', '日本', '%', '1,000', '"', "'",
+EN_WORDS = ['ID=7', 'ID', 'UUID=42', 'log', 'ROOT', '(ROOT', 'a)b', ':)-', '1)a', 'a_b', '_', 'x[1]', '42', '3.14', 'dog', 'Mr.', "it's", '(', '[', ']', '{', 'a(b', '<x>', 'x>y', '&amp;', 'ü', '日本', '%', '1,000', '"', "'",
             ')', 'a)', '))', '(a)', '-', '--', 'U.S.', ';', 'e=mc2']
-JA_WORDS = ['犬', 'が', 'は', '走る', '(', ')', '[', ']', 'abc', '１２', 'を', '、', '。', 'x>y', '&', 'た', 'ー']
+JA_WORDS = ['ID=7', 'ID', 'UUID=42', 'SSEQ', '<', '>B', 'ADV0', '犬', 'が', 'は', '走る', '(', ')', '[', ']', 'abc', '１２', 'を', '、', '。', 'x>y', '&', 'た', 'ー']
 
 
 def random_tree(rng, cats, words, lang, max_leaves=5, symbols=None):
